@@ -67,7 +67,9 @@ func (st *State) hbEdge(a, b *Thread) {
 }
 
 func (st *State) raceAccess(p Ptr, write bool) {
-	if !st.eng.cfg.Race || p.Obj == nil || p.Obj.Env || st.cur == nil || len(st.thrs) < 2 {
+	if !st.eng.cfg.Race || p.Obj == nil || p.Obj.Env || st.cur == nil || len(st.thrs) < 2 || st.inAtomic > 0 {
+		// accesses inside atomic environment steps (harness sockets, servers) and atomic library calls are not
+		// race-checked and create no happens-before edges: a socket is not a Go synchronisation primitive
 		return
 	}
 	t := st.cur
